@@ -83,8 +83,10 @@ TLC_JAR = "/opt/veriftools/tla/tla2tools.jar:/opt/veriftools/tla/CommunityModule
 
 
 def tlc(module, cfg, meta, workers=4, timeout=900, env=None, simulate=None, coverage=False, heap="4g", depth=None,
-        trace_mode=False, seed_=None, extra=None):
-    """run TLC; returns dict(out, rc, generated, distinct, depth, coverage{action:count}, secs)"""
+        trace_mode=False, seed_=None, extra=None, out_file=None):
+    """run TLC; returns dict(out, rc, generated, distinct, depth, coverage{action:count}, secs).
+    With out_file the output goes to that file (for generators that print hundreds of thousands of lines) and
+    `out` holds only its last 20 000 characters; read the file with prints_file()."""
     os.makedirs(meta, exist_ok=True)
     cmd = ["java", "-XX:+UseParallelGC", "-Xmx" + heap]
     if trace_mode:
@@ -104,7 +106,16 @@ def tlc(module, cfg, meta, workers=4, timeout=900, env=None, simulate=None, cove
     if extra:
         cmd += extra
     cmd += [module]
-    rc, out, dt = run(cmd, timeout, cwd=SPEC, env=env)
+    if out_file:
+        with open(out_file, "w") as fo:
+            rc, _, dt = run(cmd, timeout, cwd=SPEC, env=env, stdout=fo)
+        with open(out_file, "rb") as fi:
+            fi.seek(0, 2)
+            size = fi.tell()
+            fi.seek(max(0, size - 20000))
+            out = fi.read().decode("utf-8", "replace")
+    else:
+        rc, out, dt = run(cmd, timeout, cwd=SPEC, env=env)
     res = {"out": out, "rc": rc, "secs": dt, "generated": 0, "distinct": 0, "depth": 0, "coverage": {}}
     m = re.findall(r"(\d[\d,]*) states generated, (\d[\d,]*) distinct states found", out)
     if m:
@@ -140,6 +151,23 @@ def prints(out, tag):
         except Exception:
             raise ToolError("cannot parse TLC print: " + line[:300])
     return res
+
+
+def prints_file(path, tag):
+    """like prints(), but streams the lines of a TLC output file"""
+    pat = '<<"%s", "' % tag
+    with open(path, errors="replace") as f:
+        for line in f:
+            i = line.find(pat)
+            if i < 0:
+                continue
+            s = line[i + len(pat) - 1:].rstrip()
+            if s.endswith(">>"):
+                s = s[:-2].rstrip()
+            try:
+                yield json.loads(json.loads(s))
+            except Exception:
+                raise ToolError("cannot parse TLC print: " + line[:300])
 
 
 def write_prints(out, tag, path):
